@@ -3,6 +3,7 @@ package html
 import (
 	"fmt"
 	"io"
+	"regexp"
 
 	"github.com/elliotchance/gedcom/v39"
 	"github.com/elliotchance/gedcom/v39/html/core"
@@ -107,8 +108,15 @@ func PageSources() string {
 	return "sources.html"
 }
 
+var notPageNameRegexp = regexp.MustCompile("[^a-zA-Z_0-9-]+")
+
 func PageSource(source *gedcom.SourceNode) string {
-	return fmt.Sprintf("%s.html", source.Pointer())
+	// The pointer can contain any character (apart from "@"). It must not be
+	// possible for a pointer like "../x" to place the page outside of the
+	// output directory.
+	name := notPageNameRegexp.ReplaceAllString(source.Pointer(), "-")
+
+	return fmt.Sprintf("%s.html", name)
 }
 
 func PageStatistics() string {
